@@ -73,6 +73,10 @@ pub struct LspTrace {
     pub hash_seeds: Vec<u64>,
     pub dir_seed: u64,
     pub mode: String,
+    /// entries of ws/ that cannot be read as a source file (dangling symlink, directory named like a
+    /// source file, symlink loop): the workspace folder the server meets at initialize is not clean
+    #[serde(default)]
+    pub ws_extras: Vec<crate::world::Extra>,
     /// which legal shape the initialize request of the history's server takes (0 = the plain one)
     #[serde(default)]
     pub init_shape: u8,
@@ -189,6 +193,11 @@ pub fn event_message(ev: &Event, index: usize) -> Option<Message> {
                 "textDocument/documentSymbol" | "textDocument/formatting" => json!({"textDocument": {"uri": expand_uri(uri)}, "options": {"tabSize": 2, "insertSpaces": true}}),
                 "textDocument/semanticTokens/full/delta" => json!({"textDocument": {"uri": expand_uri(uri)}, "previousResultId": "1"}),
                 "textDocument/semanticTokens" => json!({"textDocument": {"uri": expand_uri(uri)}}),
+                // the params the like-named notification would carry
+                "textDocument/didOpen" => json!({"textDocument": {"uri": expand_uri(uri), "languageId": "61131-3-st", "version": 1, "text": "PROGRAM asked\nVAR\n k : INT;\nEND_VAR\nEND_PROGRAM\n"}}),
+                "textDocument/didChange" => json!({"textDocument": {"uri": expand_uri(uri), "version": 2}, "contentChanges": [{"text": "PROGRAM asked\nVAR\n k : INT;\nEND_VAR\n k := undeclared_name;\nEND_PROGRAM\n"}]}),
+                "textDocument/didClose" => json!({"textDocument": {"uri": expand_uri(uri)}}),
+                "$/cancelRequest" => json!({"id": 1}),
                 _ => json!({}),
             };
             Message::Request(Request { id: req_id(index, *id_kind), method: method.clone(), params })
@@ -199,7 +208,9 @@ pub fn event_message(ev: &Event, index: usize) -> Option<Message> {
                     let (i, k) = refers_to.unwrap();
                     json!({"id": serde_json::to_value(req_id(i, k)).unwrap_or(Value::Null)})
                 }
-                "textDocument/didClose" | "textDocument/didSave" => json!({"textDocument": {"uri": expand_uri(uri)}}),
+                "textDocument/didClose" | "textDocument/didSave" | "textDocument/semanticTokens/full" => json!({"textDocument": {"uri": expand_uri(uri)}}),
+                "textDocument/hover" => json!({"textDocument": {"uri": expand_uri(uri)}, "position": {"line": 0, "character": 0}}),
+                "shutdown" => Value::Null,
                 "$/cancelRequest" => json!({"id": 1}),
                 "$/setTrace" => json!({"value": "off"}),
                 "workspace/didChangeConfiguration" => json!({"settings": {}}),
